@@ -228,6 +228,10 @@ Definition from_step (k : kind) (d : props) (acc : res attrs) (fe : from_entry) 
 Definition from_props (k : kind) (d : props) : res attrs :=
   fold_left (from_step k d) (from_table k) (Ok (blank k)).
 
+(* conversion hint only (no logical content): unfold these two wrappers before the recursive functions
+   they call, otherwise the kernel normalises the table interpreters on symbolic slivers *)
+Strategy expand [to_props from_props].
+
 (* sliver.node_id = d.get(NODE_ID, None) *)
 Definition node_id_of (d : props) : option str := pget node_id_prop d.
 
